@@ -17,6 +17,14 @@ from robotpy_ext.misc import crc7 as mod  # noqa: E402
 
 import array  # noqa: E402
 
+class IterOnly:
+    def __init__(self, p):
+        self._p = bytes(p)
+
+    def __iter__(self):
+        return iter(self._p)
+
+
 FORMS = {"bytes": bytes, "list": list, "bytearray": bytearray, "tuple": tuple, "memoryview": lambda p: memoryview(bytes(p)),
          "array": lambda p: array.array("B", p),
          # byte VALUES held in wider items: still a sequence of bytes
@@ -24,6 +32,8 @@ FORMS = {"bytes": bytes, "list": list, "bytearray": bytearray, "tuple": tuple, "
          # views of part of a larger receive buffer: the message is what the view exposes
          "mv_slice": lambda p: memoryview(bytes([0xA5, 0x80]) + bytes(p) + bytes([0x7F, 1, 2]))[2:2 + len(p)],
          "mv_stride": lambda p: memoryview(bytes(x for b in p for x in (b, 0xEE)))[::2],
+         # a re-iterable object that offers nothing but __iter__ (no __len__, no __getitem__)
+         "iter_only": lambda p: IterOnly(p),
          "ba_slice_view": lambda p: memoryview(bytearray(bytes([9]) + bytes(p) + bytes([0x80])))[1:1 + len(p)]}
 
 
